@@ -74,7 +74,24 @@ def discharge(ob, timeout_ms, use_cvc5=True, want_candidate=True):
         return {"status": "proved", "backend": "evaluation", "seconds": 0.0}
     if ob.info.get("backend") == "sympy":
         from pyvc import sympy_backend
-        st_, why = sympy_backend.prove(ob.pc, g, timeout_s=timeout_ms / 1000)
+        import signal
+
+        class _TO(Exception):
+            pass
+
+        def _alarm(*_):
+            raise _TO()
+        old = signal.signal(signal.SIGALRM, _alarm)
+        signal.alarm(max(5, int(timeout_ms / 1000 * 3)))
+        try:
+            st_, why = sympy_backend.prove(ob.pc, g, timeout_s=timeout_ms / 1000)
+        except _TO:
+            st_, why = "unknown", "sympy timeout"
+        except Exception as e:
+            st_, why = "unknown", f"sympy error {e!r}"
+        finally:
+            signal.alarm(0)
+            signal.signal(signal.SIGALRM, old)
         if st_ == "proved":
             return {"status": "proved", "backend": "sympy", "seconds": time.time() - t0}
         sympy_reason = why
